@@ -85,6 +85,7 @@ def verify_contract(reg: Registry, c: Contract, cfg: Config) -> FunctionReport:
 
     def run(path: Path):
         it = Interp(path, reg, top_target=c.target)
+        it.top_contract = c
         it.cur_name = short
         if c.setup is not None:
             fn, pre_args = c.setup(it)
@@ -151,7 +152,7 @@ def verify_contract(reg: Registry, c: Contract, cfg: Config) -> FunctionReport:
             rep.inlined |= it.inlined
             rep.abstracted |= it.abstracted
             rep.extern_used |= it.extern_used
-        env.vars["result"] = result
+        env.vars[c.result_name or "result"] = result
         env.vars["raised"] = raised.cls.name if raised is not None else None
         env.vars["exc"] = raised
         env.vars["trace"] = it.trace
